@@ -57,7 +57,22 @@ DEFAULT = URIRef("urn:x-rdflib:default")
 XSDNS = "http://www.w3.org/2001/XMLSchema#"
 H1, H2 = "5a6d0e1f3c2b4a79b8e0d1c2f3a4b5c6", "0f1e2d3c4b5a69788796a5b4c3d2e1f0"
 # label strings; label number K = index.  The same numbers name the blank nodes of the initial content (id = LAB[K]).
-LAB = ["b0", "b1", "x", "genid1", "N" + H1, "N" + H2, "n" + H1 + "b1", "f" + H2 + "b1", "ub1bL0C1", "Formula1", "a0", "g"]
+LAB = ["b0", "b1", "x", "genid1", "N" + H1, "N" + H2, "n" + H1 + "b1", "f" + H2 + "b1", "ub1bL0C1", "Formula1", "a0", "g",
+       # near-collisions of "b0": labels that differ only by leading/trailing `_`, case, `-`, `.`, a leading digit, `:`
+       "_b0", "__b0", "b0_", "B0", "b-0", "b.0", "_", "b\u00b70",      # 12..19: legal in every syntax
+       "0b0", "0",                                                    # 20..21: not an NCName (no rdf:nodeID)
+       "b:0", "_:b0", ":b0", "b0_:", "_:_b0"]                         # 22..26: `:` — N-Triples/N-Quads grammar, TriX, JSON-LD, hext
+NEAR = [0] + list(range(12, 27))
+COLON_OK = {"nt", "nquads", "trix", "json-ld", "hext"}
+
+
+def label_ok(k, fmt):
+    """may label number k be written in syntax fmt?"""
+    if k >= 22:
+        return fmt in COLON_OK
+    if k >= 20:
+        return fmt != "xml"
+    return True
 LITS = {0: ("", None, None), 1: ("0", XSDNS + "integer", None), 2: ("x", None, "en"), 3: ("a b", None, None),
         4: ("false", XSDNS + "boolean", None)}
 MARK_P = 13          # predicate of marker triples
@@ -75,7 +90,7 @@ def lit_tuple(n):
 
 
 def marker_lit(i, k):
-    return 100 + 20 * i + k
+    return 100 + 40 * i + k      # unique per (document index < 4, label number < 40)
 
 
 # ---------------------------------------------------------------- generator
@@ -101,6 +116,8 @@ def compatible_fmts(quads, sink):
             continue
         if sink == "graph" and (fmt not in D.TRIPLE_FMTS or f["named"]):
             continue
+        if not all(label_ok(int(t[1:]), fmt) for q in quads for t in q if re.fullmatch(r"n\d+", t)):
+            continue
         fmts.append(fmt)
     return fmts
 
@@ -115,13 +132,16 @@ def _gen_doc(rng, sink, idx, pool, earlier, init_bn):
     quadfmt = sink != "graph" and rng.random() < 0.6
     fmt = rng.choice(D.QUAD_FMTS if quadfmt else D.TRIPLE_FMTS)
     anon_ok = fmt in D.ANON_SO and rng.random() < 0.5
+    legal = [k for k in pool if label_ok(k, fmt)] or [0]
     nxt_anon = [0]
 
     def lab():
         if earlier and rng.random() < 0.2:
             i, ks = rng.choice(earlier)
-            return "r%d.%d" % (i, rng.choice(ks))
-        return "n%d" % rng.choice(pool)
+            ks = [k for k in ks if label_ok(k, fmt)]   # (a verbatim parser's "generated id" is the label itself)
+            if ks:
+                return "r%d.%d" % (i, rng.choice(ks))
+        return "n%d" % rng.choice(legal)
 
     def subj():
         return lab() if rng.random() < 0.65 else "i%d" % rng.choice(SUBJ_I)
@@ -195,9 +215,14 @@ def _gen_doc(rng, sink, idx, pool, earlier, init_bn):
 
 def gen_case(rng, tier, i):
     sink = rng.choice(["graph", "ds", "ds", "ds", "cg"])
-    pool = rng.sample(range(len(LAB)), rng.randint(1, 3))
-    if rng.random() < 0.5:
-        pool[0] = rng.choice([0, 0, 4, 8])
+    if rng.random() < 0.45:      # a family of near-collisions, used together in one document and across documents
+        pool = rng.sample(NEAR, rng.randint(2, 4))
+        if rng.random() < 0.6 and 0 not in pool:
+            pool[0] = 0
+    else:
+        pool = rng.sample(range(12), rng.randint(1, 3))
+        if rng.random() < 0.5:
+            pool[0] = rng.choice([0, 0, 4, 8])
     graphs = ["i0"] if sink == "graph" else ["i0", "i20", "b%d" % pool[0]]
     init = []
     for _ in range(rng.randint(0, 3)):
@@ -544,6 +569,12 @@ def run_impl(case):
     if shared:
         stats["label_shared"] = 1
     stats["quads"] = sum(len(d["quads"]) for d in case["docs"])
+    for d in case["docs"]:
+        ks = {int(t[1:]) for q in d["quads"] for t in q if re.fullmatch(r"n\d+", t)}
+        if len(ks & set(NEAR)) >= 2:
+            stats["near_collision_docs"] = stats.get("near_collision_docs", 0) + 1
+        if any(k >= 22 for k in ks):
+            stats["colon_label_docs"] = stats.get("colon_label_docs", 0) + 1
     stats["same_doc_again"] = sum(1 for j, d in enumerate(case["docs"]) if any(d["quads"] == e["quads"] for e in case["docs"][:j]))
     return {"obs": obs, "viol": viol, "nontrivial": bool(shared),
             "key": repr((kind, case["init"], [(d["fmt"], d["quads"], d["into"]) for d in case["docs"]])),
@@ -716,9 +747,28 @@ def _only_on(fmt, tags):
     return m
 
 
-MATCHERS = {"hext_verbatim_labels": _only_on("hext", ("merge", "fresh-shared")),
+def _k1(case, result):
+    """C12-K1 (hext keeps labels verbatim): every violation is a merge / fresh-shared on a hext document, and the case
+    has the K1 shape: a hext label that is also the id of a node of the initial content, or is used by another hext
+    parse call, or was read off the target; or the two-fresh-targets clause failed.  (A collapse of two different
+    labels inside one hext document — C12-F6 — does not have that shape.)"""
+    if not _only_on("hext", ("merge", "fresh-shared"))(case, result):
+        return False
+    if any(x.startswith("fresh-shared") for x in result["viol"]):
+        return True
+    init_ids = {t for q in case["init"] for t in q if t.startswith("b")}
+    hext = [(j, {t for q in d["quads"] for t in q if t[0] in "nr"}) for j, d in enumerate(case["docs"]) if d["fmt"] == "hext"]
+    for j, labs in hext:
+        for t in labs:
+            if t[0] == "r" or "b" + t[1:] in init_ids or any(t in other for i, other in hext if i != j):
+                return True
+    return False
+
+
+MATCHERS = {"hext_verbatim_labels": _k1,
             "trix_verbatim_labels": _only_on("trix", ("merge", "fresh-shared")),
             "jsonld_verbatim_labels": _only_on("json-ld", ("merge", "fresh-shared")),
             "nquads_default_graph_wiped": _only_on("nquads", ("removed", "merge")),
             "hext_default_graph_wiped": _only_on("hext", ("removed", "merge")),
-            "n3_anon_counter_ids": _only_on("n3", ("merge",))}
+            "n3_anon_counter_ids": _only_on("n3", ("merge",)),
+            "hext_label_prefix_strip": _only_on("hext", ("merge",))}
